@@ -2,7 +2,7 @@
    [component_full] is the schema regenerated from the running code (Valid/Generated.v). *)
 From Coq Require Import String Ascii List Bool ZArith NArith Relations.
 Import ListNotations.
-Require Import V.Lib.PyStr V.Valid.Model V.Valid.Proofs V.Valid.Kahn V.Valid.Generated V.Valid.GenProofs.
+Require Import V.Lib.PyStr V.Valid.Model V.Valid.Proofs V.Valid.Kahn V.Valid.Replicate V.Valid.Generated V.Valid.GenProofs.
 Open Scope string_scope.
 
 (* accepted => identifiers unique, every reference names a component, no dependency cycle (no path from a
@@ -57,6 +57,21 @@ Theorem C11_accept_exact : forall w, dicts_ok w ->
   (accept component_full w = true <-> structurally_ok component_full w).
 Proof. exact (accept_exact component_full). Qed.
 Print Assumptions C11_accept_exact.
+
+(* replication preserves acyclicity, for every graph and every assignment of replica counts (structured replica
+   identifiers: copy k consumes copy k of a replicated producer, a node that is not replicated consumes all copies) *)
+Theorem C11_replication_preserves_acyclicity : forall (K : Type) (cnt : K -> option N) (g : list (K * list K)),
+  (forall x, ~ clos_trans K (edge g) x x) ->
+  forall y, ~ clos_trans (rid K) (edge (expand_graph cnt g)) y y.
+Proof. exact replicate_acyclic. Qed.
+Print Assumptions C11_replication_preserves_acyclicity.
+
+(* so the expanded graph of an accepted workflow is acyclic whatever the replica counts are *)
+Theorem C11_accepted_replicated_acyclic : forall w (cnt : cid -> option N),
+  accept component_full w = true ->
+  forall y, ~ clos_trans (rid cid) (edge (expand_graph cnt (graph_of w))) y y.
+Proof. exact (accept_replicated_acyclic component_full). Qed.
+Print Assumptions C11_accepted_replicated_acyclic.
 
 (* every applicable single fault (8 constructors, any position; CyclicVars: a variable - global, or of one
    component - additionally mentions a variable that already depends on it) turns an accepted workflow into a
@@ -127,8 +142,10 @@ Example C11_nonvacuous :
   applicable component_full (CyclicVars None "g0" "g1") ex_wf /\
   applicable component_full (CyclicVars None "g0" "lv") ex_wf /\
   applicable component_full (CyclicVars (Some 0) "lv" "lv") ex_wf /\
-  dicts_ok ex_wf.
+  dicts_ok ex_wf /\
+  length (expand_graph ex_cnt ex_repl_graph) = 5.
 Proof.
   split; [vm_compute; reflexivity|]. split; [vm_compute; reflexivity|]. split; [vm_compute; reflexivity|].
-  split; [vm_compute; reflexivity|]. exact ex_cyclic_applicable.
+  split; [vm_compute; reflexivity|].
+  destruct ex_cyclic_applicable as [H1 [H2 [H3 H4]]]. repeat (split; [assumption|]). vm_compute. reflexivity.
 Qed.
